@@ -350,6 +350,9 @@ type Opts struct {
 	StatusEvents    bool
 	Prop            Prop
 	StatusPolicyAll bool
+	// PropUnset: a spelling of Prop = PropBackground (not part of the Coq term): the propagation-policy
+	// option is left EMPTY and the Applier / Destroyer must default it to Background themselves
+	PropUnset bool
 }
 
 func (o Opts) Coq() string {
@@ -387,6 +390,8 @@ func (o Opts) Text() string {
 	}
 	if o.Prop != PropBackground {
 		p = append(p, o.Prop.Coq())
+	} else if o.PropUnset {
+		p = append(p, "prop-unset")
 	}
 	if o.StatusPolicyAll {
 		p = append(p, "statusall")
